@@ -59,11 +59,14 @@ Definition start_of (bl : list Z) (m : cfmsg) : Z :=
   | Some e => e - zlen (m_hashes m) + 1
   end.
 
+Definition STALL_ROUNDS : Z := 24.
+
 Record mon := {
   m_tfh : list Z;          (* true filter hashes by height of the current chain *)
   m_thd : list Z;          (* true filter headers *)
   m_conn : list Z;         (* connected, by the implementation's bans *)
-  m_ok : bool              (* the hypotheses held in every round so far *)
+  m_ok : bool;             (* the hypotheses held in every round so far *)
+  m_stall : Z              (* consecutive fetch rounds without progress while a whole interval behind *)
 }.
 
 Section Run.
@@ -76,7 +79,7 @@ Definition mon_chain (m : mon) (h : Z) (xs tfh : list Z) (blen : Z) : mon :=
   let tf := take keep (m_tfh m) ++ tfh in
   let base := take keep (m_thd m) in
   let thd := base ++ chain_from Hf (default 0 (last base)) tfh in
-  {| m_tfh := tf; m_thd := thd; m_conn := m_conn m; m_ok := m_ok m |}.
+  {| m_tfh := tf; m_thd := thd; m_conn := m_conn m; m_ok := m_ok m; m_stall := 0 |}.
 
 (* the hypotheses of the loop theorems, on the data of one round *)
 Definition round_hyp (m : mon) (bl : list Z) (cpans : list rcp) (raws : list rraw)
@@ -135,12 +138,12 @@ Fixpoint run_evs (id : Z) (s : lstate) (m : mon) (i : Z) (mism : bool) (evs : li
     | RConnect p =>
       let s' := lstep Hf cfg s (EConnect p) in
       run_evs id s' {| m_tfh := m_tfh m; m_thd := m_thd m;
-                       m_conn := if mem p (m_conn m) then m_conn m else m_conn m ++ [p]; m_ok := m_ok m |}
+                       m_conn := if mem p (m_conn m) then m_conn m else m_conn m ++ [p]; m_ok := m_ok m; m_stall := 0 |}
               (i + 1) mism rest
     | RLeave p =>
       let s' := lstep Hf cfg s (ELeave p) in
       run_evs id s' {| m_tfh := m_tfh m; m_thd := m_thd m;
-                       m_conn := List.filter (fun q => negb (q =? p)) (m_conn m); m_ok := m_ok m |}
+                       m_conn := List.filter (fun q => negb (q =? p)) (m_conn m); m_ok := m_ok m; m_stall := 0 |}
               (i + 1) mism rest
     | RRound cpans raws envr rfilt hint ars ob =>
       let d := {| d_cpans := List.map mk_cp cpans; d_raws := List.map mk_raw raws; d_env := mk_env envr;
@@ -174,8 +177,19 @@ Fixpoint run_evs (id : Z) (s : lstate) (m : mon) (i : Z) (mism : bool) (evs : li
             negb strict || negb avail || negb (ocls =? 1) || List.existsb (fun q => mem q (m_conn m)) obans in
           if ok_honest && ok_value && ok_progress then [] else [(id, 2, i, l_flag s')]
         else [] in
+      (* no stall: the checkpointed fetch runs again and again (an honest peer
+         with the complete list answering every time, the filter tip a whole
+         interval behind, the chain unchanged) without committing anything.
+         Which of several agreeing lists the handler takes is the map's
+         choice; a correct but shorter list may be taken in a round, but not
+         STALL_ROUNDS times in a row *)
+      let stalled := hyp && strict && (ocls =? 3) && opt_eqb pair_eqb oftip (tip_of (afl (l_a s))) &&
+                     match oftip with Some (_, h) => h + INTERVAL <=? zlen bl - 1 | None => false end in
+      let stall := if stalled then m_stall m + 1 else 0 in
+      let r4 := if stall =? STALL_ROUNDS then [(id, 2, i, 0)] else [] in
       let m' := {| m_tfh := m_tfh m; m_thd := m_thd m;
-                   m_conn := List.filter (fun q => negb (mem q obans)) (m_conn m); m_ok := hyp |} in
+                   m_conn := List.filter (fun q => negb (mem q obans)) (m_conn m); m_ok := hyp;
+                   m_stall := stall |} in
       (* hard-coded control checkpoints, whoever is honest: the sender of an
          accepted list that (capped at the tip) contradicts one at any entry
          is banned in this round; a filter tip at a control height carries
@@ -191,7 +205,7 @@ Fixpoint run_evs (id : Z) (s : lstate) (m : mon) (i : Z) (mism : bool) (evs : li
                       | None => true
                       end in
         if ok_ban && ok_tip then [] else [(id, 2, i, 0)] in
-      r1 ++ r10 ++ r2 ++ r3 ++ run_evs id s' m' (i + 1) (mism || negb same) rest
+      r1 ++ r10 ++ r2 ++ r3 ++ r4 ++ run_evs id s' m' (i + 1) (mism || negb same) rest
     end
   end.
 
@@ -204,7 +218,7 @@ Definition lverdict_with (legacy : bool) (c : Z * lcase) : list (Z * Z * Z * Z) 
   let cfg := {| c_hard := fun h => lookup h hard; c_cp := None; c_genesis := genesis; c_legacy := legacy; c_height_only := legacy |} in
   let a := {| abl := unruns bl; afl := unruns fl |} in
   let tf := unruns tfh in
-  let m := {| m_tfh := tf; m_thd := true_headers Hf tf; m_conn := conn; m_ok := true |} in
+  let m := {| m_tfh := tf; m_thd := true_headers Hf tf; m_conn := conn; m_ok := true; m_stall := 0 |} in
   run_evs Hf cfg honest id (linit a conn false) m 0 false evs.
 
 Definition run_lcases_with (legacy : bool) (cs : list (Z * lcase)) : list (Z * Z * Z * Z) :=
